@@ -146,9 +146,10 @@ class Vocab:
         self.default_graph = base + 'defaultGraph'
         self.table_name = RR + 'tableName' if name == 'r2rml' else RML + 'tableName'
         self.sql_query = RR + 'sqlQuery' if name == 'r2rml' else RML + 'query'
-        self.quoted = RML + 'quotedTriplesMap'
-        self.star = RML + 'RDFstarTriple'
-        self.non_asserted = RML + 'NonAssertedTriplesMap'
+        # RML-star terms: the legacy vocabulary has its own (http://semweb.mmlab.be/ns/rml#)
+        self.quoted = (L if name == 'legacy' else RML) + 'quotedTriplesMap'
+        self.star = (L if name == 'legacy' else RML) + 'RDFstarTriple'
+        self.non_asserted = (L if name == 'legacy' else RML) + 'NonAssertedTriplesMap'
 
 
 def _p(iri):
